@@ -60,8 +60,9 @@ class PackedOps(object):
         if not hasattr(self, 'parrs'):
             self.packed_reset()
         if name not in self.parrs:
-            from real import BadOp
-            raise BadOp('no such packed array ' + name)
+            # the object was not created on this side (its creation raised): an ordinary error observation,
+            # so that the history is judged at the step that failed and not aborted
+            raise LookupError('no such packed array ' + name)
         return self.parrs[name], self.ptwin[name]
 
     def _state_diff(self):
@@ -339,6 +340,12 @@ class PackedOps(object):
         if sd is not None:
             return 'NUMPY-DIFF %s %s' % (obs, sd)
         return obs
+
+    def op_p_drop(self, pos, kv):
+        if hasattr(self, 'parrs'):
+            self.parrs.pop(pos[0], None)
+            self.ptwin.pop(pos[0], None)
+        return 'ok'
 
     # ---- mutation ------------------------------------------------------
     def op_p_set(self, pos, kv):
